@@ -10,6 +10,7 @@ FILES = {
     "zz_verif_c08_bytes_test.go": "C08/bytes_test.go",
     "zz_verif_c08_jsonmodel_test.go": "C08/jsonmodel_test.go",
     "zz_verif_c08_directed_test.go": "C08/directed_test.go",
+    "zz_verif_c08_hostile_test.go": "C08/hostile_test.go",
 }
 
 
@@ -43,7 +44,7 @@ class P(vlib.Prop):
     instance_obligations = []
     harness_module = "C08.Harness"
     case_type = "case"
-    shard = 60
+    shard = 100
     harnesses = [
         vlib.Harness("codec", MOD, PKG, FILES, "^TestVerifC08$", "pprofileotlp", timeout=1500),
     ]
@@ -59,7 +60,7 @@ class P(vlib.Prop):
             "model accepts), 4 value->JSON tree, 5 JSON tree->value incl. the alternate forms (one-sided). A case is non-trivial when the "
             "encoding has > 2 bytes / the input is non-empty; distinct = distinct case terms.")
     trusted_base = [
-        "Coq 8.16.1 kernel + vm_compute (coqc); no axioms (Print Assumptions: closed under the global context for all 25 theorems)",
+        "Coq 8.16.1 kernel + vm_compute (coqc); no axioms (Print Assumptions: closed under the global context for all 27 theorems)",
         "schema translator: harness/C08/schema_test.go reads struct tags, XXX_OneofWrappers and Go field types of pdata/internal/data/protogen/** by reflection on every run and probes each message's emission order by marshalling; validated by the byte-exact correspondence",
         "JSON decoder table: obtained on every run by running the real jsoniter decoders on one minimal document per message x key x token form (harness/C08/jsonmodel_test.go); validated by case kind 5",
         "JSON character level (jsoniter lexer, jsonpb printer, strconv, base64/hex text) is NOT modelled: real documents are parsed into the tree type with encoding/json + strconv along the schema",
